@@ -10,6 +10,8 @@ B: the RLE coder pair bounded-exhaustively (the property's own quantifier),
    from the format documents, poke/move/patch frame contracts.
 """
 import ast
+import contextlib
+import io
 import itertools
 import os
 import random
@@ -834,6 +836,101 @@ def pokes_bounded(seed, n):
     return n, bad
 
 
+def bin2sna_tool(seed, n):
+    """bin2sna.main on generated inputs and options, the snapshot read back with Snapshot.get: RAM is exactly the input at
+    ORG (48K), or - with --page - banks 5, 2 and N from the input and every --bank file in its bank (zero-padded; other
+    banks zero), pokes applied, PC / SP / border / 7ffd as the options say (defaults: START = STACK = ORG, border 7)."""
+    from skoolkit import bin2sna
+    from skoolkit.snapshot import Snapshot
+    rnd = random.Random(seed * 13 + 9)
+    tmp = tempfile.mkdtemp(prefix='c09b2s_')
+    bad = []
+    try:
+        for t in range(n):
+            L = rnd.choice((1, 100, 16384, 49152, rnd.randrange(1, 49152)))
+            data = [rnd.randrange(1, 256) for _ in range(L)]
+            binf = os.path.join(tmp, 'x.bin')
+            with open(binf, 'wb') as f:
+                f.write(bytes(data))
+            ext = rnd.choice(('z80', 'szx'))
+            out = os.path.join(tmp, 'x.' + ext)
+            args = []
+            org = 65536 - L
+            if rnd.random() < 0.5 and L < 49152:
+                org = rnd.randrange(16384, 65536 - L + 1)
+                args += ['-o', str(org)]
+            mem = [0] * org + data + [0] * (65536 - org - L)
+            page = None
+            banks = None
+            if rnd.random() < 0.5:
+                page = rnd.randrange(8)
+                args += ['--page', str(page)]
+                banks = {b: [0] * 0x4000 for b in range(8)}
+                banks[5], banks[2] = mem[0x4000:0x8000], mem[0x8000:0xC000]
+                banks[page] = mem[0xC000:]
+                for b in rnd.sample(range(8), rnd.randrange(0, 4)):
+                    blen = rnd.choice((0x4000, 0x4000, 1, 3, rnd.randrange(1, 0x4000)))
+                    bdata = [rnd.randrange(1, 256) for _ in range(blen)]
+                    bf = os.path.join(tmp, 'bank%d.bin' % b)
+                    with open(bf, 'wb') as f:
+                        f.write(bytes(bdata))
+                    args += ['--bank', '%d,%s' % (b, bf)]
+                    banks[b] = bdata + [0] * (0x4000 - blen)
+            start, stack, border = org, org, 7
+            if rnd.random() < 0.4:
+                start = rnd.randrange(16384, 65536)
+                args += ['-s', str(start)]
+            if rnd.random() < 0.4:
+                stack = rnd.randrange(16384, 65536)
+                args += ['-p', str(stack)]
+            if rnd.random() < 0.3:
+                border = rnd.randrange(8)
+                args += ['-b', str(border)]
+            if rnd.random() < 0.3:
+                a, v = rnd.randrange(16384, 65536), rnd.randrange(256)
+                args += ['-P', '%d,%d' % (a, v)]
+                if banks is None:
+                    mem[a] = v
+                else:
+                    banks[{1: 5, 2: 2, 3: page}[a >> 14]][a & 0x3FFF] = v
+            desc = ' '.join(x if not x.startswith(tmp) else os.path.basename(x) for x in args) + ' (%d bytes -> %s)' % (L, ext)
+            err = io.StringIO()
+            try:
+                with contextlib.redirect_stdout(io.StringIO()), contextlib.redirect_stderr(err):
+                    bin2sna.main(args + [binf, out])
+                sn = Snapshot.get(out)
+            except (Exception, SystemExit) as ex:
+                bad.append((desc, 'exception %r %s' % (ex, err.getvalue()[-100:])))
+                continue
+            why = None
+            if banks is None:
+                got = list(sn.ram())
+                if got != mem[16384:]:
+                    a = next(i for i in range(49152) if got[i] != mem[16384 + i]) + 16384
+                    why = 'RAM differs at %d: %d, expected %d' % (a, got[a - 16384], mem[a])
+            else:
+                got = list(sn.ram(-1))
+                if len(got) != 0x20000:
+                    why = 'not a 128K snapshot'
+                else:
+                    for b in range(8):
+                        if got[b * 0x4000:(b + 1) * 0x4000] != banks[b]:
+                            o = next(i for i in range(0x4000) if got[b * 0x4000 + i] != banks[b][i])
+                            why = 'bank %d differs at offset %d: %d, expected %d' % (b, o, got[b * 0x4000 + o], banks[b][o])
+                            break
+                if why is None and sn.out7ffd != page:
+                    why = '7ffd is %d, expected %d' % (sn.out7ffd, page)
+            if why is None and (sn.pc, sn.sp, sn.border) != (start, stack, border):
+                why = '(pc, sp, border) = %s, expected %s' % ((sn.pc, sn.sp, sn.border), (start, stack, border))
+            if why:
+                bad.append((desc, why))
+                if len(bad) > 3:
+                    break
+    finally:
+        shutil.rmtree(tmp, ignore_errors=True)
+    return n, bad
+
+
 def run(tier):
     rep = common.Report('C09', tier, 'other', './check C09 --tier %s' % tier)
     rep.trust('pyvc, z3/cvc5 for the codec VCs; CPython for the bounded parts; zlib assumed correct')
@@ -875,6 +972,14 @@ def run(tier):
     rep.bounded.append({'function': 'skoolkit.snapshot.poke / move', 'contract': 'exactly the named cells change, to the named values', 'bound': '%d generated specs' % ev, 'evaluations': ev})
     for b in bad[:3]:
         rep.violation('C09/%s' % b[0], 'poke/move frame contract: %s' % (b,), {'case': b})
+    try:
+        evb, badb = bin2sna_tool(common.seed(), 60 if quick else 1500)
+    except Exception as ex:
+        evb, badb = 1, [('bin2sna', 'exception %r' % (ex,))]
+    rep.bounded.append({'function': 'skoolkit.bin2sna.main -> Snapshot.get', 'contract': 'RAM == input at ORG / banks 5, 2, N and every --bank file in its bank (zero-padded), pokes applied; PC, SP, border, 7ffd as the options say',
+                        'bound': '%d generated inputs and option sets (48K and --page/--bank, full-size and short bank files, z80/szx)' % evb, 'evaluations': evb})
+    for b in badb[:2]:
+        rep.violation('C09/bin2sna/%s' % b[1].split(' differs')[0].split(' is ')[0][:30], 'bin2sna %s: %s' % b, {'case': {'bin2sna': b[0], 'seed': common.seed()}, 'observed': b[1]})
     rep.extra['explanation'] = ('P: writer codec composed with the reader statements (taken from the real _read methods) proved to be the identity modulo the field width for all values; '
                                'B: RLE bounded-exhaustive, files, independent readers, poke/move')
     return rep.finish()
@@ -886,6 +991,13 @@ def replay(path):
         doc = json.load(f)
     case = doc.get('case')
     print('replaying', doc.get('key'), case)
+    if isinstance(case, dict) and 'bin2sna' in case:
+        n_, bad = bin2sna_tool(case.get('seed', common.seed()), 1500)
+        print(bad[:2])
+        if bad:
+            print('VIOLATION property=C09 replay=%s' % path)
+            return 1
+        return 0
     if isinstance(case, dict) and 'memory_slice' in case:
         r = replay_memory_slices({'slice_start': case['memory_slice'][0], 'slice_stop': case['memory_slice'][1]}, '')
         print(r['diffs'])
